@@ -110,6 +110,11 @@ type evaluator struct {
 type frame struct {
 	pkg *packages.Package
 	env map[types.Object]value
+	// fieldOverride: any selector x.F with F in the map evaluates to the bound value, whatever x
+	// is (used to fold a predicate over one field of an element that is otherwise unknown);
+	// fieldStores records the values assigned to such fields
+	fieldOverride map[string]value
+	fieldStores   map[string]value
 }
 
 type flow int
@@ -438,6 +443,14 @@ func (ev *evaluator) assign(fr *frame, lhs ast.Expr, v value) {
 			fr.env[o] = v
 		}
 	case *ast.SelectorExpr:
+		if _, over := fr.fieldOverride[l.Sel.Name]; over {
+			if fr.fieldStores == nil {
+				fr.fieldStores = map[string]value{}
+			}
+			fr.fieldStores[l.Sel.Name] = v
+			fr.fieldOverride[l.Sel.Name] = v
+			return
+		}
 		// x.F = v on a record-valued local
 		if id, ok := l.X.(*ast.Ident); ok {
 			o := info.Uses[id]
@@ -478,6 +491,9 @@ func (ev *evaluator) expr(fr *frame, e ast.Expr) value {
 		}
 		return unknown("free variable %s", e.Name)
 	case *ast.SelectorExpr:
+		if v, over := fr.fieldOverride[e.Sel.Name]; over {
+			return v
+		}
 		// field of a record
 		x := ev.expr(fr, e.X)
 		if x.k == vRec {
@@ -615,6 +631,31 @@ func (ev *evaluator) expr(fr *frame, e ast.Expr) value {
 			return unknown("string index")
 		}
 		return unknown("index")
+	case *ast.SliceExpr:
+		// s[lo:hi] on a constant string
+		x := ev.expr(fr, e.X)
+		if x.isStr() && !e.Slice3 {
+			lo, hi := int64(0), int64(len(x.str()))
+			if e.Low != nil {
+				v := ev.expr(fr, e.Low)
+				if !v.isInt() {
+					return unknown("slice bound")
+				}
+				lo = v.int()
+			}
+			if e.High != nil {
+				v := ev.expr(fr, e.High)
+				if !v.isInt() {
+					return unknown("slice bound")
+				}
+				hi = v.int()
+			}
+			if lo < 0 || hi > int64(len(x.str())) || lo > hi {
+				return unknown("slice bounds out of range (would panic)")
+			}
+			return cstr(x.str()[lo:hi])
+		}
+		return unknown("slice expression")
 	}
 	return unknown("expression %T", e)
 }
@@ -692,6 +733,49 @@ func (ev *evaluator) call(fr *frame, e *ast.CallExpr) []value {
 			}
 		}
 		return []value{unknown("%s of non-constants", full)}
+	case "strings.Index", "strings.LastIndex", "strings.Count":
+		a, b := argv(0), argv(1)
+		if a.isStr() && b.isStr() {
+			switch full {
+			case "strings.Index":
+				return []value{cint(int64(strings.Index(a.str(), b.str())))}
+			case "strings.LastIndex":
+				return []value{cint(int64(strings.LastIndex(a.str(), b.str())))}
+			default:
+				return []value{cint(int64(strings.Count(a.str(), b.str())))}
+			}
+		}
+		return []value{unknown("%s of non-constants", full)}
+	case "strings.Cut":
+		a, b := argv(0), argv(1)
+		if a.isStr() && b.isStr() {
+			x, y, ok := strings.Cut(a.str(), b.str())
+			return []value{cstr(x), cstr(y), cbool(ok)}
+		}
+		return []value{unknown("Cut of non-constants"), unknown("Cut of non-constants"), unknown("Cut of non-constants")}
+	case "strings.CutPrefix", "strings.CutSuffix":
+		a, b := argv(0), argv(1)
+		if a.isStr() && b.isStr() {
+			var x string
+			var ok bool
+			if full == "strings.CutPrefix" {
+				x, ok = strings.CutPrefix(a.str(), b.str())
+			} else {
+				x, ok = strings.CutSuffix(a.str(), b.str())
+			}
+			return []value{cstr(x), cbool(ok)}
+		}
+		return []value{unknown("%s of non-constants", full), unknown("%s of non-constants", full)}
+	case "strings.SplitN":
+		a, b, n := argv(0), argv(1), argv(2)
+		if a.isStr() && b.isStr() && n.isInt() {
+			var out []value
+			for _, p := range strings.SplitN(a.str(), b.str(), int(n.int())) {
+				out = append(out, cstr(p))
+			}
+			return []value{{k: vList, list: out}}
+		}
+		return []value{unknown("SplitN of non-constants")}
 	case "strings.EqualFold":
 		a, b := argv(0), argv(1)
 		if a.isStr() && b.isStr() {
